@@ -364,6 +364,45 @@ def blocked_cases(rep, quick, seed):
                     cases.append({"op": "blocked", "name": f"zonal_mean(joint {tag})", "base": b_, "runs": [r_]})
             except Exception as ex:
                 cases.append({"op": "blocked", "name": "zonal_mean(joint)", "base": dict(base), "runs": [{"cfg": "dask:joint-compute-same-name", "kind": "lazy", "timechunked": False, "outcome": f"raise:{type(ex).__name__}", "px": [], "dims": [], "dtype": "", "coords": []}]})
+    # two lazy results of the SAME operation on the SAME dask array that differ in one argument or attribute (the nodata attribute,
+    # the requested dtype under one name, the smoothing parameter), evaluated in ONE graph: each must equal its own eager twin
+    # (task names that do not cover every input of a block function make the two layers collide)
+    sr = np.arange(-2, 2.2, 0.4)
+    grp = (np.arange(T) % 3).astype("int16")
+    twins = [
+        ("autocorr", "int", lambda d, a, v: d.hdc.algo.autocorr(), lambda d, a, v: d.assign_attrs(nodata=v).hdc.algo.autocorr()),
+        ("mktrend", "int", lambda d, a, v: d.hdc.algo.mktrend(), lambda d, a, v: d.assign_attrs(nodata=v).hdc.algo.mktrend()),
+        ("rolling_sum", "int", lambda d, a, v: d.hdc.rolling.sum(3), lambda d, a, v: d.assign_attrs(nodata=v).hdc.rolling.sum(3)),
+        ("mean_grp", "int", lambda d, a, v: d.hdc.algo.mean_grp(grp), lambda d, a, v: d.assign_attrs(nodata=v).hdc.algo.mean_grp(grp)),
+        ("spi", "rain", lambda d, a, v: d.hdc.algo.spi(), lambda d, a, v: d.assign_attrs(nodata=v).hdc.algo.spi()),
+        ("zonal_mean_dtype", "int", lambda d, a, v: d.hdc.zonal.mean(a["zones"], [0, 1, 2], name="zm"), lambda d, a, v: d.hdc.zonal.mean(a["zones"], [0, 1, 2], name="zm", dtype="float64")),
+        ("zonal_mean_nodata", "int", lambda d, a, v: d.hdc.zonal.mean(a["zones"], [0, 1, 2], name="zm"), lambda d, a, v: d.assign_attrs(nodata=v).hdc.zonal.mean(a["zones"], [0, 1, 2], name="zm")),
+        ("whits_s", "int", lambda d, a, v: d.hdc.whit.whits(ND, s=10.0), lambda d, a, v: d.hdc.whit.whits(ND, s=1000.0)),
+        ("whits_nodata", "int", lambda d, a, v: d.hdc.whit.whits(ND, s=10.0), lambda d, a, v: d.hdc.whit.whits(v, s=10.0)),
+        ("whitsvc_p", "int", lambda d, a, v: d.hdc.whit.whitsvc(ND, srange=sr, p=0.9), lambda d, a, v: d.hdc.whit.whitsvc(ND, srange=sr, p=0.6)),
+        ("whitswcv", "int", lambda d, a, v: d.hdc.whit.whitswcv(ND, robust=False), lambda d, a, v: d.hdc.whit.whitswcv(ND, robust=True)),
+    ]
+    for ti, (name, kind, f1, f2) in enumerate(twins):
+        da = base_cube(seed + 1, kind)
+        ny, nx = da.sizes["y"], da.sizes["x"]
+        aux = {"zones": zones(da)}
+        vals = [int(t) for t in np.asarray(da).reshape(-1).tolist() if t == t and t != da.attrs.get("nodata")]
+        v = max(set(vals), key=vals.count) if vals else 1       # the twin's nodata: the most frequent valid observation of the cube
+        for layout in ((("time", "y", "x"), ("y", "x", "time"))[ti % 2],):
+            dd = da.transpose(*layout)
+            try:
+                e1, e2 = f1(dd, aux, v), f2(dd, aux, v)
+                if digest_result(e1, ny, nx)["px"] == digest_result(e2, ny, nx)["px"]:
+                    continue        # the twins do not differ on this cube: nothing to learn
+                dl = dd.chunk({"time": -1, "y": 2, "x": 2})
+                l1, l2 = dask.compute(f1(dl, aux, v), f2(dl, aux, v), scheduler="synchronous")
+                for tag, e, l in (("A", e1, l1), ("B", e2, l2)):
+                    b_ = dict(digest_result(e, ny, nx), outcome="ok")
+                    r_ = dict(digest_result(l, ny, nx), outcome="ok", cfg=f"dask:joint-compute-twin:{tag}:{','.join(layout)}", kind="lazy", timechunked=False)
+                    cases.append({"op": "blocked", "name": f"{name}(twin {tag})", "base": b_, "runs": [r_]})
+            except Exception as ex:
+                cases.append({"op": "blocked", "name": f"{name}(twin)", "base": {"outcome": "ok", "px": [], "dims": [], "dimsets": [], "dtype": "", "adtype": "", "coords": []},
+                              "runs": [{"cfg": "dask:joint-compute-twin", "kind": "lazy", "timechunked": False, "outcome": f"raise:{type(ex).__name__}", "px": [], "dims": [], "dtype": "", "coords": []}]})
     return cases
 
 
